@@ -25,8 +25,8 @@ FldC(rel) == LET v == T.fld.vals
 SpecFile == LET fc == FldC(RelOf(file.repr))
             IN IF file.by[1] = "own" THEN OwnFile(fc, file.by[2], file.by[3])
                ELSE ForeignFile(fc, file.by[2], file.by[3], file.by[4])
-ObsFile(by, o) == [by |-> by, ver |-> o.ver, repr |-> o.repr, hdr |-> o.hdr, check |-> o.check, bit |-> -1,
-                   data |-> o.data, side |-> o.side, cut |-> NoCut, lj |-> FALSE]
+ObsFile(by, o, over) == [by |-> by, ver |-> o.ver, repr |-> o.repr, hdr |-> o.hdr, check |-> o.check, bit |-> -1,
+                   data |-> o.data, side |-> o.side, cut |-> NoCut, lj |-> FALSE, over |-> over]
 
 TInit == /\ tid \in 1 .. Len(Traces)
          /\ l = 0
@@ -37,12 +37,12 @@ TInit == /\ tid \in 1 .. Len(Traces)
 
 StepWrite ==
    /\ Ev.k = "write"
-   /\ act' = <<"write", Ev.repr, Ev.ext>>
+   /\ act' = <<IF Ev.over THEN "writeover" ELSE "write", Ev.repr, Ev.ext>>
    /\ obs' = [st |-> "written"]
    /\ LET fc == FldC(RelOf(Ev.repr)) IN
       IF ~Ev.ok THEN /\ file' = NoFile
                      /\ Verd(FALSE, "C09_FileIsOVF2:write-raises")
-      ELSE /\ file' = ObsFile(<<"own", Ev.repr, Ev.ext>>, Ev.file)
+      ELSE /\ file' = ObsFile(<<"own", Ev.repr, Ev.ext>>, Ev.file, Ev.over)
            /\ Verd(Ev.file.conform, "C09_FileIsOVF2:format")
            /\ Verd(Ev.file.exact, "C09_FileIsOVF2:header-on-lattice")
            /\ Verd(FI_Struct(fc, Ev.repr, Ev.ext, Ev.file), "C09_FileIsOVF2:struct")
